@@ -60,3 +60,11 @@ Definition rpn_ex_page : rpn_node :=
 Example rpn_ex_run : map fst (rpn_fonts (rpn_run rpn_ex_page)) = [1; 2; 4]%N
   /\ map fst (rpn_xobjs (rpn_run rpn_ex_page)) = [21; 22]%N /\ rpns_needed rpn_ex_page = [4; 21; 22; 1; 2]%N.
 Proof. vm_compute. repeat split; reflexivity. Qed.
+
+(* page labels: the tree of 11-pages-with-labels.pdf (pre-1.., iv.., p..) and the selection 11-1 reversed to three pages *)
+Definition plb_ex_tree : plb_tree :=
+  [(0, PlbLab None (Some 1%N) PlbStNone); (4, PlbLab (Some 3%N) None (PlbStInt 4)); (8, PlbLab (Some 5%N) None (PlbStInt 16))]%Z.
+Example plb_ex_handle : plb_handle [Some plb_ex_tree; None] [(0%nat, 10); (0%nat, 9); (0%nat, 4); (0%nat, 5); (1%nat, 0); (1%nat, 1)]%Z =
+  [(0, PlbLab (Some 5%N) None (PlbStInt 18)); (1, PlbLab (Some 5%N) None (PlbStInt 17)); (2, PlbLab (Some 3%N) None (PlbStInt 4));
+   (4, PlbLab None None (PlbStInt 5))]%Z.
+Proof. vm_compute. reflexivity. Qed.
